@@ -75,6 +75,12 @@ def run(prop, tier, seed):
     prod = lambda v: {'op': 'append', 'a': {'v': v}}
     cons = [{'op': 'popleft', 'a': {}}, {'op': 'pop', 'a': {}}, {'op': 'peekleft', 'a': {}}, {'op': 'len', 'a': {}},
             {'op': 'getitem', 'a': {'i': 0}}, {'op': 'appendleft', 'a': {'v': 9}}]
+    # a lowered maxlen against a concurrent consumer / producer: only the surplus is discarded
+    for m in (1, 2):
+        for other in ({'op': 'popleft', 'a': {}}, {'op': 'pop', 'a': {}}, {'op': 'append', 'a': {'v': 7}}):
+            cfg = dict(policy='none', cull=10, limit=2 ** 30, stats=False, shared=0, kind='deque', maxlen=-1, timeout=0,
+                       busy_budget=2, init_items=[1, 2, 3][:m + 1])
+            cj_dfs.append((cfg, {1: [{'op': 'setmaxlen', 'a': {'m': m}}], 2: [other]}, 2, 60 if tier == 'quick' else 300, seed, 0))
     k = 14 if tier == 'quick' else 150
     for i in range(k):
         maxlen = rng.choice([-1, -1, 1, 2])
